@@ -386,7 +386,7 @@ func TestC02SessionConcurrentSend(t *testing.T) {
 	rapid.Check(t, func(t *rapid.T) {
 		g := rapid.IntRange(2, 16).Draw(t, "goroutines")
 		per := rapid.IntRange(50, 400).Draw(t, "perGoroutine")
-		nearLimit := rapid.IntRange(0, 3).Draw(t, "nearLimit") == 0
+		nearLimit := rapid.IntRange(0, 2).Draw(t, "nearLimit") > 0
 		a, b, _, p := establish("P", 0, 1, rapid.Bool().Draw(t, "viaData"))
 		if p != "" {
 			t.Fatalf("%s", p)
